@@ -90,7 +90,7 @@ MUTANTS = [
         float v = value*(b-a) + a;
         if(v < mn)""")]),
  dict(id="C19", name="int_lower_clamp_to_max", edits=[(AU, "        else if(v < au.param_min)\n            v = au.param_min;", "        else if(v < au.param_min)\n            v = au.param_max;")]),
- dict(id="C19", name="int_truncates", edits=[(AU, '(int)round(v));', '(int)v);')]),
+ dict(id="C19", name="int_truncates", edits=[(AU, '        v = round(v);\n', '')]),
  dict(id="C19", name="log_scale_not_exponentiated", edits=[(AU, "        if(au.map.control_scale == 1)\n            v = expf(v);", "        ;")]),
  dict(id="C19", name="channel_ignored", edits=[(AU, "        par_id = channel*128 + type;", "        par_id = type;")]),
  dict(id="C19", name="offset_sign_flipped_benign", expect=0, edits=[(AU, "    float center = (mn+mx)*(0.5 + au.map.offset/100.0);", "    float center = (mn+mx)*(0.5 - au.map.offset/100.0);")]),
@@ -244,10 +244,9 @@ MUTANTS = [
  dict(id="C14", name="rparam_defaults_before_declared_range", edits=[(PS, 'rProp(parameter) rDefaultProps DOC(__VA_ARGS__) rMap(min, 0) rMap(max, 127), NULL, rParamCb(name)}', 'rProp(parameter) rDefaultProps rMap(min, 0) rMap(max, 127) DOC(__VA_ARGS__), NULL, rParamCb(name)}')]),
  dict(id="C14", name="index_read_with_atoi", edits=[("src/dispatch.c", "    unsigned long val = strtoul(*msg, NULL, 10);\n", "    unsigned val = atoi(*msg);\n")]),
  dict(id="C14", name="location_appended_unbounded", edits=[(PC, "                                          : strcspn(port.name, \":\")) >= loc_left)\n                    continue;", "                                          : strcspn(port.name, \":\")) >= loc_left + 100000)\n                    continue;"), (PC, "                                    : impl->fixed[port_num].length()) >= loc_left)\n                    return;", "                                    : impl->fixed[port_num].length()) >= loc_left + 100000)\n                    return;")]),
- dict(id="C19", name="char_parameter_driven_with_int", edits=[(AU, "        rtosc_message(msg, 256, path, type == 'i' ? \"i\" : \"c\", (int)round(v));", "        rtosc_message(msg, 256, path, \"i\", (int)round(v));")]),
+ dict(id="C19", name="char_parameter_driven_with_int", edits=[(AU, "        rtosc_message(msg, 256, path, type == 'i' ? \"i\" : \"c\", (int)v);", "        rtosc_message(msg, 256, path, \"i\", (int)v);")]),
  dict(id="C19", name="int_log_parameter_not_exponentiated", edits=[(AU, "        if(au.map.control_scale == 1)\n            v = exp(v);\n", "")]),
- dict(id="C19", name="int_clamp_in_single_precision", edits=[(AU, "        double v = center - range/2.0 + value*range;\n        if(v > au.param_max)\n            v = au.param_max;", "        double v = center - range/2.0 + value*range;\n        if(v > mx)\n            v = mx;")]),
- dict(id="C19", name="int_mapped_through_float_control_points", edits=[(AU, "        double v = center - range/2.0 + value*range;", "        double v = value*(b-a) + a; (void)center; (void)range;")]),
+ dict(id="C19", name="int_clamp_in_single_precision", edits=[(AU, "        double v = value*((double)b-a) + a;\n        if(v > au.param_max)\n            v = au.param_max;", "        double v = value*((double)b-a) + a;\n        if(v > mx)\n            v = mx;")]),
  dict(id="C12", name="value_query_dispatched_from_reply_buffer", edits=[("src/cpp/ports-runtime.cpp", "    ports.dispatch(msg.data(), d, false);", "    ports.dispatch(buffer_with_port, d, false);")]),
  dict(id="C12", name="option_array_mapped_element_by_element", edits=[(PC, "            if(av[i].type == 'i' && !printable_symbol(av[i].val.i, meta))\n                return;", "            if(false)\n                return;")]),
  dict(id="C12", name="format_keywords_saved_as_bare_symbols", edits=[(PC, "        if(!strcmp(val, reserved[r]))\n            val = NULL;", "        if(false)\n            val = NULL;")]),
